@@ -285,6 +285,8 @@ def layout(spec, rng, kind):
         return {'main.mal': print_spec(spec, rng, comments=rng.random() < 0.3)}, 'main.mal', True
     chunks = split_spec_chunks(spec, rng, fine=True)
     n = rng.randint(1, min(4, len(chunks)))
+    if rng.random() < 0.05:
+        n = len(chunks)          # one file per declaration
     if kind in ('ordered-split', 'repeated', 'nested'):
         # consecutive groups of chunks -> files, included in order
         cuts = sorted(rng.sample(range(1, len(chunks)), n - 1)) if n > 1 else []
